@@ -289,6 +289,8 @@ class _FakeFile(io.BytesIO):
         else:
             io.BytesIO.__init__(self)
             fs.files[path] = b""
+            fs.clock += 1.0  # simulated time: every write moves the file's modification time
+            fs.mtimes[path] = fs.clock
 
     def write(self, b):
         b = bytes(b)
@@ -308,6 +310,8 @@ class FakeFS:
         self.next_fault = None  # None | ("enospc", k) | ("eacces",) | ("eio",)
         self.fired = {"enospc": 0, "eacces": 0, "eio": 0, "torn": 0, "lost": 0, "enoent": 0}
         self.opened = 0
+        self.mtimes = {}
+        self.clock = 1.0e9
 
     def open(self, path, mode="r", *a, **kw):
         self.opened += 1
@@ -338,15 +342,49 @@ class FakeFS:
             self.fired["lost"] += 1
 
     def install(self):
+        """rockit.ocp.open is the write/read seam; os.path / os.stat answer for the fake files as well, so that code
+        which asks whether a file exists (or how large / how old it is) sees the simulated disk"""
         import rockit.ocp as rocp
 
         rocp.open = self.open
+        fs = self
+        self._orig_os = {"exists": os.path.exists, "isfile": os.path.isfile, "getsize": os.path.getsize, "getmtime": os.path.getmtime, "stat": os.stat}
+        self.clock = 1.0e9
+
+        def known(p):
+            return isinstance(p, str) and (p in fs.files or os.path.basename(p) in fs.files)
+
+        def key(p):
+            return p if p in fs.files else os.path.basename(p)
+
+        def exists(p):
+            return True if known(p) else fs._orig_os["exists"](p)
+
+        def isfile(p):
+            return True if known(p) else fs._orig_os["isfile"](p)
+
+        def getsize(p):
+            return len(fs.files[key(p)]) if known(p) else fs._orig_os["getsize"](p)
+
+        def getmtime(p):
+            return fs.mtimes.get(key(p), fs.clock) if known(p) else fs._orig_os["getmtime"](p)
+
+        def stat(p, *a, **kw):
+            if known(p):
+                t = fs.mtimes.get(key(p), fs.clock)
+                return os.stat_result((0o100644, 0, 0, 1, 0, 0, len(fs.files[key(p)]), t, t, t))
+            return fs._orig_os["stat"](p, *a, **kw)
+
+        os.path.exists, os.path.isfile, os.path.getsize, os.path.getmtime, os.stat = exists, isfile, getsize, getmtime, stat
 
     def uninstall(self):
         import rockit.ocp as rocp
 
         if "open" in rocp.__dict__:
             del rocp.__dict__["open"]
+        if getattr(self, "_orig_os", None):
+            os.path.exists, os.path.isfile = self._orig_os["exists"], self._orig_os["isfile"]
+            os.path.getsize, os.path.getmtime, os.stat = self._orig_os["getsize"], self._orig_os["getmtime"], self._orig_os["stat"]
 
 
 # ----------------------------------------------------------------------------------------------
